@@ -664,8 +664,30 @@ func runReparam(c *mon.Case) {
 	ts := genTimes(r)
 	k := r.Range(2, 4)
 	var ps []dnaParams
+	classesOne := 0
 	for i := 0; i < k; i++ {
 		p, _ := genDNA(r, model)
+		if i > 0 && r.Chance(0.4) {
+			// the next vector differs from the previous one in ONE parameter only (a scan over one parameter)
+			q := ps[i-1]
+			q.AsConstructed = false
+			switch r.Intn(4) {
+			case 0:
+				q.Kappa, q.Kappa1 = p.Kappa, p.Kappa
+				if model == "tn93" || model == "gtr" {
+					q.Kappa = ps[i-1].Kappa
+					q.Kappa1 = logUniform(r, 0.05, 50)
+				}
+			case 1:
+				q.Kappa2 = logUniform(r, 0.05, 50)
+			case 2:
+				q.Rates[r.Intn(6)] = genRate(r)
+			default:
+				q.Pi = p.Pi
+			}
+			p = q
+			classesOne++
+		}
 		ps = append(ps, p)
 	}
 	if r.Chance(0.3) {
@@ -677,11 +699,46 @@ func runReparam(c *mon.Case) {
 		c.Failf(model+":unexpected-error", "%s\nInitModel: %v", dnaDesc(ps[0]), err)
 		return
 	}
+	c.Add("reparam:one-parameter-changed", classesOne)
+	// one Pij object created before the re-initialisations and used after each of them (the pattern of the
+	// repository's own TestK2PPij): it follows the model object it was created for
+	var keptPij *models.Pij
+	keptT := ts[0]
+	if kp, e := models.NewPij(m, ts[0]); e == nil {
+		keptPij = kp
+	}
 	for i, p := range ps {
 		if i > 0 {
 			if err := reinitDNA(m, p); err != nil {
 				c.Failf(model+":unexpected-error", "%s\nInitModel on an object already initialised: %v", dnaDesc(p), err)
 				return
+			}
+			if keptPij != nil {
+				// at a branch length other than the one the object holds: SetLength documents a cache keyed by the
+				// length alone (the same length after a re-initialisation returns the matrix of the old parameters;
+				// noted in DESIGN.md section 3, not demanded here)
+				t := ts[r.Intn(len(ts))]
+				for try := 0; t == keptT && try < 10; try++ {
+					t = ts[r.Intn(len(ts))]
+				}
+				if t == keptT {
+					t = keptT*1.5 + 0.001
+				}
+				keptT = t
+				fresh, e := models.NewPij(m, t)
+				keptPij.SetLength(t)
+				if e == nil {
+					a, b := readPij(keptPij, 4), readPij(fresh, 4)
+					for x := 0; x < 4 && !c.Failed(); x++ {
+						for y := 0; y < 4; y++ {
+							if math.Abs(a[x][y]-b[x][y]) > 1e-12 {
+								c.Failf(model+":pij-object-does-not-follow-its-model", "%s (parameter vector %d given to one model object)\nt=%v: the Pij object created before the re-initialisation gives P[%d][%d]=%v, a Pij object created now %v", dnaDesc(p), i+1, t, x, y, a[x][y], b[x][y])
+								break
+							}
+						}
+					}
+					c.Count("reparam:kept-pij-object")
+				}
 			}
 		}
 		pi := p.Pi[:]
